@@ -198,7 +198,18 @@ CHECKS = {
         'extending grammar and a grammar that re-uses the name.',
    note=TB + 'partial: a theorem about the model cannot exhibit a data race in CPython or state the model does not know about; those halves are exploration.',
    technique='Coq purity/commutation theorems on the call-history model + history, thread-schedule and re-entrancy runs against fresh modules',
-   ref='DESIGN.md §6 C18'),
+   ref='DESIGN.md §6 C18'), 'C19': dict(
+   text='Coq theorems on a model of _create_parsing_expression (Elab.v, constructor-call form included): each documented pair '
+        '(e?/Opt, e*/List, e+/Some, >>/Right, <</Left, |/Choice for non-choice operands, [..]/Seq, ///Sep, /?/Sep(allow_trailer), '
+        '{m,n}/List(min_len,max_len)) elaborates to the SAME expression; C19_grouping: the Expr table of grammar.txt (one spelling '
+        'per row) run through the operator loop groups every token string up to length 5 as the precedence reference does '
+        '(kernel computation; the rows of the real table are checked against the Coq constant on every run). The character-level '
+        'alternatives (= : =>, ; vs newline, comments, blank lines, line breaks around operators, redundant parentheses, '
+        'ignore/ignored, bare expression) are decided by rendering generated grammars in several spellings and comparing the '
+        'exported expression objects and the behaviour.',
+   note=TB + 'partial: spelling variants at the character level live in the meta-grammar text and are decided by differential runs; nested choices flatten with | but nest with Choice(): compared by behaviour.',
+   technique='Coq proof on an elaboration model (sugar pairs, grouping table) + differential comparison of exported expression objects across spellings',
+   ref='DESIGN.md §6 C19'),
 }
 
 PENDING = 'check under construction in this session (model/spec exist as design spikes under notes/spike; not yet wired into a registered check)'
